@@ -52,7 +52,7 @@ var (
 	protoOffers = [][]string{nil, {"chat"}, {"chat, superchat"}, {"mqtt", "json, chat.v2"}, {"chat.v2 ,json"}, {"x-1,x-2,x-3,json"},
 		// names differing only in letter case / prefixes of an accepted name: selection is exact and in client order
 		{"JSON, json"}, {"Chat.v2", "chat.V2, chat.v2, json"}, {"chat.v, chat.v22, jso, proto-1x, proto-19"}}
-	extOffers   = [][]string{nil, {"permessage-deflate"}, {"permessage-deflate; client_max_window_bits"}, {"foo; a=1, bar"}, {"permessage-deflate; server_no_context_takeover", "x-webkit-deflate-frame"}, {"bar; q=\"quoted v\"; z"}}
+	extOffers = [][]string{nil, {"permessage-deflate"}, {"permessage-deflate; client_max_window_bits"}, {"foo; a=1, bar"}, {"permessage-deflate; server_no_context_takeover", "x-webkit-deflate-frame"}, {"bar; q=\"quoted v\"; z"}}
 )
 
 var bigSlice = func() []string {
@@ -123,7 +123,10 @@ func extraHeader(kind string) (ws.HandshakeHeader, http.Header) {
 	case "bytes":
 		return ws.HandshakeHeaderBytes("X-Extra: one\r\n"), nil
 	case "func":
-		return ws.HandshakeHeaderFunc(func(w io.Writer) (int64, error) { n, err := io.WriteString(w, "X-Extra: one\r\n"); return int64(n), err }), nil
+		return ws.HandshakeHeaderFunc(func(w io.Writer) (int64, error) {
+			n, err := io.WriteString(w, "X-Extra: one\r\n")
+			return int64(n), err
+		}), nil
 	case "http":
 		h := http.Header{"X-Extra": []string{"one"}}
 		return ws.HandshakeHeaderHTTP(h), h
@@ -148,7 +151,9 @@ func negotiateFor(kind string, wsf *wsflate.Extension) func(httphead.Option) (ht
 	case "negotiate-decline":
 		return func(o httphead.Option) (httphead.Option, error) { return httphead.Option{}, nil }
 	case "negotiate-error":
-		return func(o httphead.Option) (httphead.Option, error) { return httphead.Option{}, errors.New("negotiate boom") }
+		return func(o httphead.Option) (httphead.Option, error) {
+			return httphead.Option{}, errors.New("negotiate boom")
+		}
 	case "negotiate-wsflate":
 		return wsf.Negotiate
 	}
